@@ -134,7 +134,7 @@ class Boc:
         else:
             raise BocError(f'unknown boc prefix: {data[:4]}')
         is_generic = data[:4] == SERIALIZED_BOC_PREFIX
-        if data_len - 5 < 1 + 5 * result['size_bytes']:
+        if data_len < 6 + 3 * result['size_bytes']:  # flags/size, off_bytes, cells, roots, absent
             raise BocError(f'can\'t parse boc header: {data[:4]}')
         offset_bytes = data[5]
         result['offset_bytes'] = offset_bytes
